@@ -529,6 +529,9 @@ LABEL:
 		}
 	}
 
+	// afterRightBrace reports whether the "else" token follows a right brace.
+	afterRightBrace := false
+
 	switch tok.typ {
 
 	// ;
@@ -853,10 +856,14 @@ LABEL:
 			}
 			return tok
 		}
+		afterRightBrace = true
 		fallthrough
 
 	// else
 	case tokenElse:
+		if !afterRightBrace && end != tokenEndStatement {
+			panic(syntaxError(tok.pos, "unexpected else, expecting }"))
+		}
 		if n, ok := p.parent().(*ast.ForIn); ok {
 			if end == tokenEOF {
 				panic(syntaxError(tok.pos, "unexpected else at end of statement"))
